@@ -4,6 +4,7 @@
 //	R2  go f(a...)                                    ->  { f, a evaluated here; simrt.Go(func(){ f(a...) }) }
 //	R3  for k, v := range <map with ordered key>      ->  loop over simrt.Iter (seeded order)
 //	R4  os.ReadFile / ioutil.ReadFile                 ->  simrt.ReadFile
+//	R13 maps.Keys / maps.Values / maps.All (go 1.23)  ->  simrt.MapsKeys / MapsValues / MapsAll (seeded order)
 //	R6  chan T, make(chan T, n), ch <- v, <-ch, v, ok := <-ch, close(ch), len/cap(ch), range ch  ->  simrt.Chan[T]
 //	R7  sync.Once -> simrt.Once, time.Sleep -> simrt.Sleep, runtime.Gosched -> simrt.Yield
 //	R8  select { case v := <-a: … case b <- x: … default: … }  ->  switch over simrt.Select(…)
@@ -123,6 +124,7 @@ func run(dir string) error {
 		Uses:      map[*ast.Ident]types.Object{},
 		Defs:      map[*ast.Ident]types.Object{},
 		Implicits: map[ast.Node]types.Object{},
+		Instances: map[*ast.Ident]types.Instance{},
 	}
 	conf := types.Config{Importer: importer.ForCompiler(fset, "source", nil)}
 	if _, err := conf.Check(pkgName, fset, asts, info); err != nil {
@@ -248,6 +250,24 @@ func rewriteFile(fs *fileState) {
 				fs.add(s, e, false, func() string { return "simrt." + nm })
 				rep.Edits["R9 time."+name]++
 				needSimrt = true
+			case path == "maps" && (name == "Keys" || name == "Values" || name == "All"):
+				// R13: the standard library's map iterators visit the map in the runtime's random order
+				ordered := false
+				if inst, ok := info.Instances[x.Sel]; ok && inst.TypeArgs != nil && inst.TypeArgs.Len() >= 2 {
+					if b, ok := inst.TypeArgs.At(1).Underlying().(*types.Basic); ok && b.Info()&types.IsOrdered != 0 {
+						ordered = true
+					}
+				}
+				if !ordered {
+					usesLeft[path]++
+					unmanaged(x.Pos(), "maps."+name+" over a map with unordered key type (iteration order not controlled)")
+					break
+				}
+				s, e := fs.off(x.Pos()), fs.off(x.End())
+				nm := name
+				fs.add(s, e, false, func() string { return "simrt.Maps" + nm })
+				rep.Edits["R13 maps."+name]++
+				needSimrt = true
 			case path == "runtime" && name == "Gosched":
 				s, e := fs.off(x.Pos()), fs.off(x.End())
 				fs.add(s, e, false, func() string { return "simrt.Gosched" })
@@ -262,6 +282,8 @@ func rewriteFile(fs *fileState) {
 					unmanaged(x.Pos(), "sync/atomic."+name)
 				case path == "time" && (name == "Sleep" || name == "After" || name == "Now" || name == "NewTimer" || name == "Tick" || name == "AfterFunc" || name == "Since" || name == "NewTicker"):
 					unmanaged(x.Pos(), "time."+name)
+				case path == "reflect" && (name == "MapKeys" || name == "MapRange"):
+					unmanaged(x.Pos(), "reflect."+name+" (iteration order not controlled)")
 				case path == "math/rand" || path == "math/rand/v2" || path == "crypto/rand":
 					unmanaged(x.Pos(), path+"."+name)
 				case path == "os" && (name == "Open" || name == "OpenFile" || name == "Stat" || name == "ReadDir"):
@@ -397,7 +419,7 @@ func rewriteFile(fs *fileState) {
 	// Imports: add simrt, blank the ones that lost their last use.
 	for _, imp := range fs.file.Imports {
 		path := strings.Trim(imp.Path.Value, "\"")
-		if (path == "sync" || path == "os" || path == "io/ioutil" || path == "time" || path == "runtime" || path == "context") && usesLeft[path] == 0 && imp.Name == nil {
+		if (path == "sync" || path == "os" || path == "io/ioutil" || path == "time" || path == "runtime" || path == "context" || path == "maps") && usesLeft[path] == 0 && imp.Name == nil {
 			s := fs.off(imp.Path.Pos())
 			fs.add(s, s, false, func() string { return "_ " })
 		}
